@@ -703,6 +703,7 @@ func shrink(d *Doc, class string) *Doc {
 						inc = append(inc, j)
 					}
 					f.Includes = inc
+					f.IncPaths = nil
 				}
 				return true
 			}) {
@@ -719,7 +720,10 @@ func shrink(d *Doc, class string) *Doc {
 					}
 				}
 			}
-			del(func(f *DFile) int { return len(f.Includes) }, func(f *DFile, i int) { f.Includes = append(f.Includes[:i], f.Includes[i+1:]...) })
+			del(func(f *DFile) int { return len(f.Includes) }, func(f *DFile, i int) {
+				f.Includes = append(f.Includes[:i], f.Includes[i+1:]...)
+				f.IncPaths = nil
+			})
 			del(func(f *DFile) int { return len(f.NS) }, func(f *DFile, i int) { f.NS = append(f.NS[:i], f.NS[i+1:]...) })
 			del(func(f *DFile) int { return len(f.Services) }, func(f *DFile, i int) { f.Services = append(f.Services[:i], f.Services[i+1:]...) })
 			del(func(f *DFile) int { return len(f.Consts) }, func(f *DFile, i int) { f.Consts = append(f.Consts[:i], f.Consts[i+1:]...) })
@@ -916,8 +920,11 @@ func docStats(out *vl.Out, d *Doc, cfg genCfg) {
 		if hasCollision(d, fi) {
 			out.Count("file-with-colliding-includes")
 		}
-		for range f.Includes {
+		for k := range f.Includes {
 			out.Count("includes")
+			if k < len(f.IncPaths) && f.IncPaths[k] != "" {
+				out.Count("include:written-relative-to-includer")
+			}
 		}
 		for range f.NS {
 			out.Count("namespaces")
